@@ -12,7 +12,7 @@ TRUST = "trusted base: ThreadPoolExecutor algorithm transcribed from CPython 3.1
 TECHNIQUE = 'deterministic simulation with a seeded thread scheduler (baton-passing real threads), differential oracle against fresh single-target invocations'
 LEVEL = 'exploration'
 BUDGET = {'quick': 200, 'thorough': 2400}
-NCASES = {'quick': 260, 'thorough': 6000}
+NCASES = {'quick': 900, 'thorough': 6000}
 RULE = ('cases: 2-3 (thorough: up to 5) targets, one simulated server each, drawn from channel archetypes (Terrapin-marked / Terrapin-noted / CBC+ETM, '
         'small / 2048 / large RSA host key, certificate with small CA, small / 2048 / OpenSSH-fallback / large GEX modulus, SSH-1 server, unknown-algorithm '
         'server, refusing server, clean server) in seeded order; one `-T file --threads k` invocation (text, -j or -P policy) under a seeded scheduler policy '
